@@ -91,10 +91,10 @@ def rule_x2(repo):
     rets = [n for n in cfg.return_nodes() if isinstance(n.ast.value, ast.Constant) and n.ast.value.value == 'unsatisfiable']
     need(rets, "backtrack: return 'unsatisfiable' not found")
 
+    from ..idioms import emptiness_holding
+
     def empty(e, pol):
-        cp = compare_parts(e)
-        return bool(cp) and cp[0] is ast.Eq and pol and isinstance(cp[1], ast.Call) and call_name(cp[1]) == 'len' and \
-            is_name(cp[1].args[0], clause_var) and isinstance(cp[2], ast.Constant) and cp[2].value == 0
+        return emptiness_holding(e, pol, clause_var)
     edges = cfg.establishing_edges(empty)
     ok = bool(edges) and all(cfg.path_avoiding(r, skip_edges=edges) is None and cfg.path_avoiding(r, skip_nodes=[rec[0]]) is None and
                              cfg.path_avoiding(r, skip_nodes=[app[0]]) is None for r in rets)
@@ -182,14 +182,31 @@ def rule_x4(repo):
     ac = _nested(repo, 'analyze_conflict')
     unp = [n for n in ast.walk(ac.node) if isinstance(n, ast.Assign) and isinstance(n.targets[0], ast.Tuple) and isinstance(n.value, ast.Subscript) and
            is_name(n.value.value, 'assigns')]
-    need(unp, 'analyze_conflict: trail entry is not unpacked')
-    names = [src(e) for e in unp[0].targets[0].elts]
-    ok = len(names) == 4
-    if ok:
-        dec, reason = names[1], names[3]
-        used_dec = any(isinstance(n, ast.If) and dec in {x.id for x in ast.walk(n.test) if isinstance(x, ast.Name)} for n in ast.walk(ac.node))
-        used_reason = any(isinstance(c, ast.Call) and call_name(c) == 'resolution' and any(reason in src(a) for a in c.args) for c in ast.walk(ac.node))
-        ok = used_dec and used_reason
+    if unp:
+        names = [src(e) for e in unp[0].targets[0].elts]
+        ok = len(names) == 4
+        if ok:
+            dec, reason = names[1], names[3]
+            used_dec = any(isinstance(n, ast.If) and dec in {x.id for x in ast.walk(n.test) if isinstance(x, ast.Name)} for n in ast.walk(ac.node))
+            used_reason = any(isinstance(c, ast.Call) and call_name(c) == 'resolution' and any(reason in src(a) for a in c.args) for c in ast.walk(ac.node))
+            ok = used_dec and used_reason
+    else:
+        # the entry is kept whole and read by index: entry[1] decides, entry[3] names the clause
+        from ..flow import flow_of
+        fl = flow_of(ac.node)
+        entries = {n.targets[0].id for n in ast.walk(ac.node) if isinstance(n, ast.Assign) and isinstance(n.targets[0], ast.Name) and
+                   isinstance(n.value, ast.Subscript) and is_name(n.value.value, 'assigns')}
+        need(entries, 'analyze_conflict: trail entry is not read')
+
+        def comp(x, k):
+            return isinstance(x, ast.Subscript) and isinstance(x.value, ast.Name) and x.value.id in entries and isinstance(x.slice, ast.Constant) and x.slice.value == k
+        used_dec = any(isinstance(n, ast.If) and any(comp(x, 1) for x in ast.walk(n.test)) for n in ast.walk(ac.node))
+        reason_names = {n.targets[0].id for n in ast.walk(ac.node) if isinstance(n, ast.Assign) and isinstance(n.targets[0], ast.Name) and comp(n.value, 3)}
+        used_reason = any(isinstance(c, ast.Call) and call_name(c) == 'resolution' and
+                          any(comp(x, 3) or (isinstance(x, ast.Name) and x.id in reason_names) for a in c.args for x in ast.walk(a)) for c in ast.walk(ac.node))
+        other = [x.slice.value for x in ast.walk(ac.node) if isinstance(x, ast.Subscript) and isinstance(x.value, ast.Name) and x.value.id in entries and
+                 isinstance(x.slice, ast.Constant) and x.slice.value not in (0, 1, 2, 3)]
+        ok = used_dec and used_reason and not other
     res.add('%s :: solve_cnf.analyze_conflict :: trail-read' % SAT, ok,
             'unpacks four components; the second decides whether to resolve, the fourth names the clause resolved with' if ok else
             'conflict analysis reads the trail entry by a different layout than it is written', ac.loc)
